@@ -309,4 +309,42 @@ theorem whileF_blockFill64 (c : BlockCore σ 64) (hs : BlockRefine.SizeOK c) (n 
 
 end
 
+theorem splice_at_end (pre r x : List U8) (k : Nat) (hp : pre.length = k) (hx : x.length = r.length) :
+    splice (pre ++ r) k x = pre ++ x := by
+  rw [← hp, splice_append, hx, List.drop_length]; simp
+
+theorem pcg32_length (s : U64) : (pcg32 s).1.length = 4 := rfl
+
+theorem pcg32Chunks_length : ∀ (k : Nat) (s : U64), (pcg32Chunks k s).1.length = 4 * k := by
+  intro k; induction k with
+  | zero => intro s; rfl
+  | succ k ih => intro s; simp only [pcg32Chunks, List.length_append, ih]; rw [pcg32_length]; omega
+
+/-- `k` consecutive outputs of a byte generator, concatenated (the recursion of `pcg32Chunks`) -/
+def chunksOf {τ : Type} (gen : τ → List U8 × τ) : Nat → τ → List U8 × τ
+  | 0, s => ([], s)
+  | k + 1, s => ((gen s).1 ++ (chunksOf gen k (gen s).2).1, (chunksOf gen k (gen s).2).2)
+
+theorem chunksOf_pcg32 : ∀ (k : Nat) (s : U64), chunksOf pcg32 k s = pcg32Chunks k s := by
+  intro k; induction k with
+  | zero => intro s; rfl
+  | succ k ih => intro s; simp only [chunksOf, pcg32Chunks, ih]
+
+/-- the `for chunk in &mut iter` loop of the default `seed_from_u64`: chunk `j` of the buffer receives the j-th output -/
+theorem foldl_chunks {τ : Type} (gen : τ → List U8 × τ) (size : Nat) (hl : ∀ s, (gen s).1.length = size)
+    (body : τ × List U8 → Nat → τ × List U8)
+    (hb : ∀ s buf j, body (s, buf) j = ((gen s).2, splice buf (j * size) (gen s).1)) :
+    ∀ (n off : Nat) (s : τ) (acc rest : List U8), acc.length = off * size →
+      List.foldl body (s, acc ++ rest) (List.range' off n) =
+        ((chunksOf gen n s).2, acc ++ (chunksOf gen n s).1 ++ rest.drop (n * size)) := by
+  intro n
+  induction n with
+  | zero => intro off s acc rest _; simp [chunksOf]
+  | succ n ih =>
+    intro off s acc rest h
+    rw [List.range'_succ, List.foldl_cons, hb, ← h, splice_append]
+    rw [ih (off + 1) _ (acc ++ (gen s).1) _ (by simp [h, Nat.succ_mul, hl])]
+    simp only [chunksOf, List.drop_drop, List.append_assoc]
+    rw [hl, Nat.succ_mul, Nat.add_comm (n * size) size]
+
 end Rngs
